@@ -12,6 +12,7 @@ import (
 
 	"verif/bubble"
 	"verif/ev"
+	"verif/memnet"
 )
 
 // "Regardless of how many connections are mid-handshake, idle, or open on HTTP/2": the population part. N idle
@@ -92,5 +93,84 @@ func manyConnections(t *testing.T, rep *ev.Report, n int) {
 	}
 	if res.Hang != "" {
 		rep.Violate(map[string]any{"kind": "hang", "part": "many-connections"}, map[string]any{"hang": res.Hang}, "%s: %s", desc, res.Hang)
+	}
+}
+
+// One Server, two listening sockets (say :443 and :8443 - Serve may be called once per listener): cancellation ends
+// every Serve call with the 'server closed' error and closes every listening socket; idle connections that came in
+// through either are closed, and neither socket serves a later client.
+func twoListeners(t *testing.T, rep *ev.Report) {
+	desc := "one Server serving two listeners, an idle HTTP/1.1 connection on each, then cancellation"
+	res := bubble.Run(t, func() {
+		st := bubble.NewStack(bubble.StackOpts{HandshakeTimeout: 10 * time.Second})
+		defer st.Shutdown()
+		ln1 := st.Ln
+		ln2 := memnet.NewListener()
+		var ret2 bool
+		var err2 error
+		go func() {
+			err2 = st.Server.Serve(ln2)
+			ret2 = true
+		}()
+		synctest.Wait()
+		via := func(ln *memnet.Listener, name string) *bubble.Client {
+			st.Ln = ln
+			defer func() { st.Ln = ln1 }()
+			cl := st.Connect(name, nil, helloH1)
+			synctest.Wait()
+			return cl
+		}
+		var idle []*bubble.Client
+		for i, ln := range []*memnet.Listener{ln1, ln2} {
+			cl := via(ln, fmt.Sprintf("idle-on-listener-%d", i+1))
+			cl.SendH1(bubble.Req{Path: fmt.Sprintf("/l%d", i+1), Host: "localhost"})
+			synctest.Wait()
+			if rs := cl.TakeH1Responses(); len(rs) != 1 || rs[0].Status != 200 {
+				rep.HarnessError("%s: the exchange over listener %d before cancellation failed", desc, i+1)
+				return
+			}
+			idle = append(idle, cl)
+		}
+		served := st.Backend.Count()
+		st.Cancel()
+		synctest.Wait()
+		for i := 0; i < 5; i++ {
+			time.Sleep(2 * time.Second)
+			synctest.Wait()
+		}
+		rep.Add("two_listener_cases", 1)
+		ret1, err1 := st.ServeReturned()
+		for i, x := range []struct {
+			ret bool
+			err error
+			ln  *memnet.Listener
+		}{{ret1, err1, ln1}, {ret2, err2, ln2}} {
+			replay := map[string]any{"listener": i + 1}
+			switch {
+			case !x.ret:
+				rep.Violate(map[string]any{"kind": "serve-not-returned", "part": "two-listeners"}, replay, "%s: Serve on listener %d has not returned 10 s after cancellation with no HTTP/1.1 exchange in flight", desc, i+1)
+			case !errors.Is(x.err, http.ErrServerClosed):
+				rep.Violate(map[string]any{"kind": "serve-wrong-error", "part": "two-listeners"}, replay, "%s: Serve on listener %d returned %q, required http.ErrServerClosed", desc, i+1, fmt.Sprint(x.err))
+			case x.ln.NumCloses() == 0:
+				rep.Violate(map[string]any{"kind": "listener-not-closed", "part": "two-listeners"}, replay, "%s: Serve on listener %d returned but its listening socket was not closed", desc, i+1)
+			}
+			if idle[i].ReadErr() == nil {
+				rep.Violate(map[string]any{"kind": "idle-h1-not-closed", "part": "two-listeners"}, replay, "%s: the idle HTTP/1.1 connection that came in through listener %d is still open 10 s after cancellation", desc, i+1)
+			}
+			late := via(x.ln, fmt.Sprintf("late-on-listener-%d", i+1))
+			if d, e := late.Handshake(); d && e == nil {
+				late.SendH1(bubble.Req{Path: "/late", Host: "localhost"})
+				synctest.Wait()
+			}
+		}
+		if st.Backend.Count() != served {
+			rep.Violate(map[string]any{"kind": "served-after-cancel", "part": "two-listeners"}, map[string]any{}, "%s: a connection attempted after the cancellation was served", desc)
+		}
+	})
+	if res.Panic != nil {
+		rep.HarnessError("%s: panic %v\n%s", desc, res.Panic, res.Stack)
+	}
+	if res.Hang != "" {
+		rep.Violate(map[string]any{"kind": "hang", "part": "two-listeners"}, map[string]any{"hang": res.Hang}, "%s: %s", desc, res.Hang)
 	}
 }
